@@ -62,14 +62,22 @@ pub fn own_count(days: i64, tod: i128, ts: TimeScale) -> i128 {
     (days - zd) as i128 * NS_DAY + tod - zt
 }
 
-/// TAI count of (ts, c) as an interval [lo, hi]: exact for the uniform scales and UTC; for ET/TDB the periodic term
-/// (|.| < 2 ms) is left open
+/// TAI count of (ts, c) as an interval [lo, hi]: exact for the uniform scales and UTC; for ET/TDB the real conversion
+/// +-100 ns (C07)
 pub fn tai_bounds(c: i128, ts: TimeScale, leap: &LeapTable) -> (i128, i128) {
     match scales::to_tai(c, ts, leap) {
         Some(t) => (t, t),
         None => {
-            let t = c + crate::lattice::J2000_TAI - 32_184_000_000;
-            (t - 2_000_000, t + 2_000_000)
+            // ET/TDB: the model has no closed-form inverse; the instant is taken from the real conversion, which C07
+            // pins to the closed forms within 30 ns - the band left open is +-100 ns instead of the +-2 ms of the
+            // periodic term. (Falls back on the wide band if the conversion panics.)
+            match guard(|| alpha(Epoch::from_duration(mk(c), ts).to_time_scale(TimeScale::TAI).duration)) {
+                Ok(t) => (t - 100, t + 100),
+                Err(_) => {
+                    let t = c + crate::lattice::J2000_TAI - 32_184_000_000;
+                    (t - 2_000_000, t + 2_000_000)
+                }
+            }
         }
     }
 }
